@@ -586,7 +586,7 @@ func c01Clone(c *Ctx, a *avlAnchors) {
 func c01Descent(c *Ctx, a *avlAnchors) {
 	rule := "descent-agreement"
 	R := c.R
-	type obs struct{ below, above string }
+	type obs struct{ below, above, eq string } // eq: the child taken when the comparator says "equal" (and == did not)
 	results := map[string]*obs{}
 	for _, name := range []string{"avl.(*node).add", "avl.(*node).find", "avl.(*node).remove"} {
 		fi := c.fn(rule, name)
@@ -597,6 +597,12 @@ func c01Descent(c *Ctx, a *avlAnchors) {
 		valueT := paramOf(fi, 1)
 		o := &obs{}
 		ok, why := true, ""
+		type giveUp struct {
+			sign     int
+			nilKnown map[string]bool
+			p        *Path
+		}
+		var giveUps []giveUp
 		for _, p := range ps {
 			// the node examined: param 0, or the loop variable
 			isNodeVal := func(t *Term) bool {
@@ -628,8 +634,44 @@ func c01Descent(c *Ctx, a *avlAnchors) {
 					}
 				}
 			}
+			// which children the path knows to be missing
+			nilKnown := map[string]bool{}
+			for _, cd := range p.Conds {
+				r := cd.Rel()
+				if r.B == nil || r.Op != "==" {
+					continue
+				}
+				if f := a.childField(r.A); f != "" && r.B.IsNil() {
+					nilKnown[f] = true
+				}
+				if f := a.childField(r.B); f != "" && r.A.IsNil() {
+					nilKnown[f] = true
+				}
+			}
 			if child == "" {
+				// "not here": find and remove may give up only where the value cannot be - the child on the value's side
+				// (both children when the comparator was not asked) is known to be missing
+				if name != "avl.(*node).add" && p.End == EndReturn && len(p.Rets) > 0 {
+					last := p.Rets[len(p.Rets)-1]
+					notFound := last.IsConst("false") || (len(p.Rets) == 1 && p.Rets[0].IsNil())
+					neq := false
+					for _, cd := range p.Conds {
+						r := cd.Rel()
+						if r.B != nil && r.Op == "!=" && ((isNodeVal(r.A) && r.B.Key() == valueT.Key()) || (isNodeVal(r.B) && r.A.Key() == valueT.Key())) {
+							neq = true
+						}
+					}
+					if notFound && neq {
+						giveUps = append(giveUps, giveUp{sign, nilKnown, p})
+					}
+				}
 				continue
+			}
+			if sign == 0 && name != "avl.(*node).add" {
+				other := map[string]string{"left": "right", "right": "left"}[child]
+				if !nilKnown[other] {
+					ok, why = false, "descends into the "+child+" child without asking the comparator although the "+other+" child may exist ("+p.CondString()+"): a value on the other side is never found"
+				}
 			}
 			// == must have been excluded before descending (find, remove)
 			if name != "avl.(*node).add" {
@@ -662,17 +704,43 @@ func c01Descent(c *Ctx, a *avlAnchors) {
 					ok, why = false, "a value above the node goes to different children on different paths"
 				}
 				o.above = child
+				if o.eq != "" && o.eq != child {
+					ok, why = false, "a value that the comparator calls equal goes to different children on different paths"
+				}
+				o.eq = child
 			case 2: // below or equal
 				if o.below != "" && o.below != child {
 					ok, why = false, "a value below the node goes to different children on different paths"
 				}
 				o.below = child
+				if o.eq != "" && o.eq != child {
+					ok, why = false, "a value that the comparator calls equal goes to different children on different paths"
+				}
+				o.eq = child
 			case 0:
 				// no comparator decision on this path (e.g. only one child exists): the child taken must not contradict
 			}
 		}
 		if ok && (o.below == "" || o.above == "") {
 			ok, why = false, "cannot find both directions of the descent"
+		}
+		if ok {
+			for _, g := range giveUps {
+				var need []string
+				switch g.sign {
+				case 1, 2:
+					need = []string{o.below}
+				case -1, -2:
+					need = []string{o.above}
+				default:
+					need = []string{o.below, o.above}
+				}
+				for _, f := range need {
+					if !g.nilKnown[f] {
+						ok, why = false, "gives up ("+g.p.CondString()+") although the "+f+" child, where the value would be, is not known to be missing"
+					}
+				}
+			}
 		}
 		if ok && o.below == o.above {
 			ok, why = false, "both directions lead to the "+o.below+" child"
@@ -690,7 +758,9 @@ func c01Descent(c *Ctx, a *avlAnchors) {
 		}
 		if ref == nil {
 			ref = o
-		} else if ref.below != o.below || ref.above != o.above {
+		} else if ref.below != o.below || ref.above != o.above || (ref.eq != "" && o.eq != "" && ref.eq != o.eq) {
+			// (values the comparator calls equal without being ==: duplicates under a coarser order; add puts them on
+			// one side, find and remove must look on that side)
 			agree = false
 		}
 	}
@@ -912,6 +982,8 @@ func c01Walk(c *Ctx, a *avlAnchors) {
 								v := e.Val
 								if !(v.Op == "builtin" && v.Sym == "append" && v.Args[0].Op == "load" && v.Args[0].Args[0].Op == "free" && v.Args[0].Args[0].N == cidx) {
 									ok = false
+								} else if el, single := appendedElem(q, v.Args[0], v); !single || !isParam(el, 0) {
+									ok = false // exactly the visited value, once
 								}
 							}
 						}
@@ -919,9 +991,19 @@ func c01Walk(c *Ctx, a *avlAnchors) {
 							ok = false
 						}
 					}
+					// the collected slice starts out empty
+					for i := range p.Events {
+						e := &p.Events[i]
+						if e.Kind == "store" && e.Addr.Key() == cell.Key() {
+							v := e.Val
+							if !(v.IsNil() || v.Op == "zero" || (v.Op == "mkslice" && len(v.Args) >= 1 && v.Args[0].IsConst("0"))) {
+								ok = false
+							}
+						}
+					}
 				}
 			}
-			R.Decide(ok, rule, fi.Name, "collect", c.pos(fi), "appends each visited value to a fresh slice and returns it", "does not collect exactly the visited values")
+			R.Decide(ok, rule, fi.Name, "collect", c.pos(fi), "appends each visited value to a fresh, initially empty slice and returns it", "does not collect exactly the visited values (each appended once to a slice that starts empty)")
 		}
 	}
 	if fi := c.fn(rule, "avl.(Tree).String"); fi != nil {
